@@ -1,8 +1,7 @@
-(** C13 — author heads and news detection.  PARTIAL (first instalment).
-    Proved: what [has_news_for] counts. Not yet proved here: that the head table always holds the
-    maximum timestamp per author (checked against the real store by the correspondence runs),
-    and the size-limited encoding. *)
-From ID Require Import Model.StoreOps Model.Heads Proofs.HeadsFacts Proofs.MigrateFacts.
+(** C13 — author heads and news detection.
+    Proved: the head table holds the per-author maximum after every history of inserts (any
+    timestamp order), what [has_news_for] counts, and the size-limited encoding. *)
+From ID Require Import Base.Bytes Model.Entry Model.Put Model.Tables Model.Bounds Model.FsStore Model.StoreOps Model.Heads Proofs.HeadsFacts Proofs.MigrateFacts Proofs.FsPutFacts.
 
 Theorem C13_has_news_counts : forall theirs ours,
   has_news theirs ours = N.of_nat (length (filter (is_news ours) theirs)).
@@ -50,3 +49,19 @@ Print Assumptions C13_encode_limit.
 Print Assumptions C13_rebuilt_heads_are_maxima.
 Print Assumptions C13_encode_distinct_ts_refuted.
 Print Assumptions C13_no_news_iff.
+
+(** the head table after any history of inserts: the recorded head of an author is the timestamp
+    of one of that author's entries now held, no entry of the author now held is newer, and an
+    author without a head has no entry *)
+Theorem C13_heads_are_maxima : forall EH l, Forall wf_entry l -> HInv (fs_puts EH empty_tables l).
+Proof. exact heads_exact. Qed.
+Theorem C13_insert_keeps_heads : forall EH T e, wf_records T -> wf_entry e -> HInv T -> HInv (fst (fs_put prefix_succ EH T e)).
+Proof. exact fs_put_heads. Qed.
+Check (eq_refl : HInv = fun T => forall ns au,
+    match head_of T ns au with
+    | Some t => (exists w, In w (recs T) /\ of_author ns au w /\ e_ts w = t) /\
+                (forall x, In x (recs T) -> of_author ns au x -> e_ts x <= t)
+    | None => forall x, In x (recs T) -> ~ of_author ns au x
+    end).
+Print Assumptions C13_heads_are_maxima.
+Print Assumptions C13_insert_keeps_heads.
